@@ -58,7 +58,12 @@ def case_strategy(draw):
     size = draw(st.sampled_from([2, 3, 3, 4, 4, 5, 6]))
     mw = draw(st.sampled_from([None, None, 1, 2, 3, size, size + 1]))
     case = {"kind": kind, "size": size, "max_workers": mw, "tape": draw(st.lists(st.integers(0, 11), min_size=0, max_size=40))}
+    # node topology: mostly one node; otherwise every rank but the root is placed on one of up
+    # to three nodes (catalog creation and rank0_node_only restrict themselves to the root's node)
+    if draw(st.sampled_from([False, False, True])):
+        case["nodes"] = ["n0"] + [draw(st.sampled_from(["n0", "n0", "n1", "n2"])) for _ in range(size - 1)]
     if kind == "iter":
+        case["rank0_node_only"] = draw(st.booleans())
         case["items"] = draw(st.lists(st.integers(0, 50), min_size=0, max_size=12))
         case["offset"] = draw(st.integers(0, 3))
         return case
@@ -137,6 +142,8 @@ def run_case(case):
             ck.cls("wildcard-with>=2-senders")
         if stats.get("overtakes", 0) > 0:
             ck.cls("message-overtaken")
+        if case.get("nodes") and len(set(case["nodes"])) > 1:
+            ck.cls("ranks-on-several-nodes")
         if stats.get("sync_sends", 0) > 0 and stats.get("eager_sends", 0) > 0:
             ck.cls("mixed-send-modes")
         outcome = resp["outcome"]
@@ -151,6 +158,12 @@ def run_case(case):
             # (the simulation stops at the first failing rank; every rank takes the same branch)
             if creates and all("at least two workers" in m for m in msgs):
                 ck.cls("refused:needs-two-workers(not judged)")
+                return ck.results()
+            nodes = case.get("nodes")
+            if creates and nodes and sum(1 for n in nodes if n == nodes[0]) < 2:
+                # catalog creation runs on the root's node only and needs a reader and a writer
+                # there: with the root alone on its node every rank raises (fail-stop, not judged)
+                ck.cls("refused:root-alone-on-its-node(not judged)")
                 return ck.results()
             first = errs[sorted(errs)[0]]
             ck.fail(f"exception:{kind}|{first['type']}@{first['frame']}", f"{resp['detail']}; ranks with errors: {sorted(errs)}")
